@@ -114,6 +114,52 @@ def run(ctx):
             _check_path(ctx, fv, name, t, asg0, r)
     ctx.floor("types", 13)
     ctx.floor("paths", 100)
+
+    # ---- history independence, decided positively: the same data word formatted as type A and then as type B in ONE interpreter
+    # (module-level state written by the first call is visible to the second) must give exactly what B gives in a fresh interpreter
+    names = [n for n, _ in sorted(T.items(), key=lambda kv: kv[1]) if n not in ("NULL", "STRING")]
+    pairs = [(a_, b_) for a_, b_ in (("DIMENSION", "FRACTION"), ("FRACTION", "DIMENSION"), ("INT_DEC", "INT_HEX"), ("INT_HEX", "INT_DEC"),
+                                     ("REFERENCE", "ATTRIBUTE"), ("FLOAT", "INT_DEC")) if a_ in T and b_ in T]
+    if ctx.tier == "thorough":
+        # every type after its neighbour in the type table, after DIMENSION and after INT_DEC
+        for i, b_ in enumerate(names):
+            for a_ in (names[i - 1], "DIMENSION", "INT_DEC"):
+                if a_ != b_ and (a_, b_) not in pairs:
+                    pairs.append((a_, b_))
+    for na, nb in pairs:
+        def run(asg, ta=T[na], tb=T[nb]):
+            a = dict(asg)
+            it = Interp(repo, folder, asg=a, hooks=hooks)
+            it.max_split = 8
+            try:
+                it.call_function(fv, [ta, data_bits(a), Sym("lookup_string")])
+            except Raised:
+                pass
+            try:
+                out = it.call_function(fv, [tb, data_bits(a), Sym("lookup_string")])
+            except Raised as ex:
+                out = ex
+            it2 = Interp(repo, folder, asg=a, hooks=hooks)
+            it2.max_split = 8
+            try:
+                ref = it2.call_function(fv, [tb, data_bits(a), Sym("lookup_string")])
+            except Raised as ex:
+                ref = ex
+            return a, out, ref
+        ctx.count("sequence_pairs")
+        for asg0, r in explore(run):
+            if isinstance(r, Raised):
+                continue   # the first call's own exception paths are judged by the per-type clause
+            asg, out, ref = r
+            inst = "TYPE_%s after the same data was formatted as TYPE_%s, data=%s" % (nb, na, _dwit(asg)["data_bits_msb_first"])
+            so, sr = (str(out) if isinstance(out, Raised) else show(out)), (str(ref) if isinstance(ref, Raised) else show(ref))
+            same = so == sr
+            if not same and (has_opaque(out, allow=("lookup_string",)) or has_opaque(ref, allow=("lookup_string",))):
+                raise AnalysisError("format_value: TYPE_%s after TYPE_%s gives %s, in a fresh state %s: terms the interpreter could not evaluate stand in the way" % (nb, na, so[:120], sr[:120]))
+            ctx.check("sequence/%s-then-%s" % (na, nb), inst, same, fv, "TYPE_%s after TYPE_%s" % (nb, na),
+                      "format_value depends on the call history: TYPE_%s of a data word gives %s after the same word was formatted as TYPE_%s, but %s in a fresh state" % (nb, so[:160], na, sr[:160]),
+                      witness=_dwit(asg), detail="same result as in a fresh state")
+    ctx.floor("sequence_pairs", 6)
     _check_arsc_getters(ctx, repo, folder, m, hooks)
     ctx.assume("_data is the unsigned 32-bit Res_value.data (all callers unpack it with an unsigned 32-bit slot)")
     ctx.note("unit nibbles outside the AOSP tables (dimension > 5, fraction > 1) are invalid data and not constrained")
@@ -193,6 +239,8 @@ def _check_path(ctx, fv, name, t, asg0, r):
             v = Bits.const(v) if isinstance(v, int) else v
             if isinstance(v, Bits) and v.subst(asg) == exp:
                 return ok("decimal of the two's-complement signed 32-bit value")
+        if exp.is_const() and ps == [("lit", str(exp.value()))]:
+            return ok("decimal of the (constant on this path) signed 32-bit value")
         return fail("expected the signed 32-bit value %s" % exp.describe())
     if name in ("DIMENSION", "FRACTION"):
         units = DIM_UNITS if name == "DIMENSION" else FRAC_UNITS
